@@ -304,6 +304,14 @@ impl Report {
         if self.evaluations == 0 {
             self.broken.push("no case was evaluated".to_owned());
         }
+        if ctx.replay.is_none() && self.samples.is_empty() {
+            self.broken
+                .push("no sample case was written out (the evidence schema needs at least one)".to_owned());
+        }
+        if ctx.replay.is_none() && self.distinct.len() < 2 {
+            self.broken
+                .push("fewer than 2 distinct non-trivial cases were explored".to_owned());
+        }
         if self.inconclusive * 20 > self.evaluations.max(1) {
             self.broken.push(format!(
                 "inconclusive share too high: {} of {}",
